@@ -1,3 +1,43 @@
-From DI Require Import PyStr Version.
-Theorem C03_placeholder : True. Proof. exact I. Qed.
-Print Assumptions C03_placeholder.
+(* C03 - Version strings: accepted language and dpkg-style decomposition. *)
+From Coq Require Import String.
+From Coq Require Import NArith List Bool.
+From DI Require Import Result PyStr Version Policy ParseFacts.
+Import ListNotations.
+Open Scope N_scope.
+
+(* accepted only if the trimmed string is valid under Debian policy *)
+Theorem C03_accept_only_if_valid : forall s v,
+  from_string s = Ok v -> policy_valid (strip s) = true.
+Proof. exact accept_only_if_valid. Qed.
+Print Assumptions C03_accept_only_if_valid.
+
+(* conversely: policy-valid, and the revision (or, without one, the upstream part)
+   ends in an alphanumeric *)
+Theorem C03_accept_if_valid_and_alnum_ends : forall s,
+  let t := strip s in
+  policy_valid t = true ->
+  (let '(_, u, r) := policy_split t in
+   match r with Some r => ends_alnum r = true | None => ends_alnum u = true end) ->
+  exists v, from_string s = Ok v.
+Proof. exact accept_if_valid. Qed.
+Print Assumptions C03_accept_if_valid_and_alnum_ends.
+
+(* every other string is rejected with ValueError and nothing else *)
+Theorem C03_reject_is_ValueError : forall s e, from_string s = Raise e -> e = ValueError.
+Proof. exact from_string_raise. Qed.
+Print Assumptions C03_reject_is_ValueError.
+
+(* epoch before the first colon (0 if absent), revision after the last hyphen
+   ("0" if absent), upstream in between *)
+Theorem C03_decomposition : forall s v,
+  from_string s = Ok v -> (epoch v, upstream v, revision v) = policy_triple (strip s).
+Proof. exact decomposition. Qed.
+Print Assumptions C03_decomposition.
+
+Example C03_nonvacuous :
+  exists v, from_string (lit "  2:1.0~rc1-2-0ubuntu3 ") = Ok v /\
+            epoch v = 2 /\ upstream v = lit "1.0~rc1-2" /\ revision v = lit "0ubuntu3".
+Proof. eexists. repeat split; vm_compute; reflexivity. Qed.
+
+Example C03_rejects_nonascii_digit : from_string (lit "1:" ++ [1634]) = Raise ValueError.
+Proof. vm_compute. reflexivity. Qed.
